@@ -1,6 +1,7 @@
 package main
 
 import (
+	"github.com/mmcloughlin/avo/gotypes"
 	"bytes"
 	"errors"
 	"fmt"
@@ -37,6 +38,9 @@ func c18Ops(r *RNG, st *struct {
 	labels   int
 	sigKind  int
 }) bopGen {
+	if st.sigKind == 1 && r.Chance(12) {
+		return loadPathOp(r)
+	}
 	switch r.Intn(24) {
 	case 0, 1:
 		st.sigKind = 0
@@ -48,7 +52,7 @@ func c18Ops(r *RNG, st *struct {
 	case 4:
 		st.sigKind = 1
 		return bopGen{"(BSignature true)", "Signature(ok)", func(c *build.Context) {
-			c.SignatureExpr("func(x uint64, s []byte, p struct{ a, b int32 }, q *int) (r uint32, z complex128)")
+			c.SignatureExpr("func(x uint64, s []byte, p struct{ a, b int32 }, q *int, str string, arr [4]uint32, st struct{ f uint8; g [2]int64 }, pp *struct{ h int32 }) (r uint32, z complex128)")
 		}, ""}
 	case 5:
 		return bopGen{"(BSignature false)", "Signature(bad expr)", func(c *build.Context) { c.SignatureExpr("func(x uint64") }, ""}
@@ -313,7 +317,7 @@ func c18(c *Ctx) {
 		mp = append(mp, fmt.Sprint(i))
 	}
 	var b strings.Builder
-	b.WriteString(coqHeader + "From Avo Require Import Model.Data Model.Builder.\nOpen Scope Z_scope.\n")
+	b.WriteString(coqHeader + "From Avo Require Import Model.Data Model.Layout Model.Builder.\nOpen Scope string_scope.\nOpen Scope Z_scope.\n")
 	fmt.Fprintf(&b, "Definition cases : list build_case := %s.\n", cListNL(good))
 	fmt.Fprintf(&b, "Definition idxmap : list N := [%s]%%N.\n", strings.Join(mp, ";"))
 	b.WriteString("Definition remap (l : list N) : list N := List.map (fun i => List.nth (N.to_nat i) idxmap 0%N) l.\n")
@@ -332,4 +336,53 @@ func c18(c *Ctx) {
 func mustFile(ctx *build.Context) *ir.File {
 	f, _ := ctx.Result()
 	return f
+}
+
+
+// loadPathOp: Load(<parameter>.<chain of component steps>, RCX) on the long signature; the expected
+// outcome is computed inside Coq by the component algebra of Model/Layout.v (path_outcome)
+func loadPathOp(r *RNG) bopGen {
+	type prm struct{ name, coq string }
+	ps := []prm{
+		{"x", "(TBasic KUint64)"}, {"s", "(TSlice (TBasic KUint8))"},
+		{"p", "(TStruct [(\"a\", TBasic KInt32); (\"b\", TBasic KInt32)])"}, {"q", "(TPtr (TBasic KInt))"},
+		{"str", "(TBasic KString)"}, {"arr", "(TArr 4 (TBasic KUint32))"},
+		{"st", "(TStruct [(\"f\", TBasic KUint8); (\"g\", TArr 2 (TBasic KInt64))])"},
+		{"pp", "(TPtr (TStruct [(\"h\", TBasic KInt32)]))"},
+	}
+	pr := Pick(r, ps)
+	n := 1 + r.Intn(3)
+	var coq, desc []string
+	var steps []func(gotypes.Component) gotypes.Component
+	for k := 0; k < n; k++ {
+		switch r.Intn(8) {
+		case 0:
+			coq, desc = append(coq, "SBase"), append(desc, "Base()")
+			steps = append(steps, func(c gotypes.Component) gotypes.Component { return c.Base() })
+		case 1:
+			coq, desc = append(coq, "SLen"), append(desc, "Len()")
+			steps = append(steps, func(c gotypes.Component) gotypes.Component { return c.Len() })
+		case 2:
+			coq, desc = append(coq, "SCap"), append(desc, "Cap()")
+			steps = append(steps, func(c gotypes.Component) gotypes.Component { return c.Cap() })
+		case 3, 4:
+			i := Pick(r, []int{-1, 0, 1, 3, 4})
+			coq, desc = append(coq, fmt.Sprintf("(SIndex (%d))", i)), append(desc, fmt.Sprintf("Index(%d)", i))
+			steps = append(steps, func(c gotypes.Component) gotypes.Component { return c.Index(i) })
+		case 5, 6:
+			f := Pick(r, []string{"a", "b", "f", "g", "h", "zz"})
+			coq, desc = append(coq, fmt.Sprintf("(SField %s)", cStr(f))), append(desc, fmt.Sprintf("Field(%q)", f))
+			steps = append(steps, func(c gotypes.Component) gotypes.Component { return c.Field(f) })
+		default:
+			coq, desc = append(coq, "(SDeref 2048)"), append(desc, "Dereference(R8)")
+			steps = append(steps, func(c gotypes.Component) gotypes.Component { return c.Dereference(reg.R8) })
+		}
+	}
+	return bopGen{fmt.Sprintf("(BLoad (path_outcome %s %s))", pr.coq, cList(coq)), fmt.Sprintf("Load(Param(%q).%s, RCX)", pr.name, strings.Join(desc, ".")), func(c *build.Context) {
+		comp := c.Param(pr.name)
+		for _, st := range steps {
+			comp = st(comp)
+		}
+		c.Load(comp, reg.RCX)
+	}, ""}
 }
